@@ -7,8 +7,40 @@ response is recorded from the real code and judged by TLC.
 import itertools
 import random
 
-DETECT = 6      # Cycle + Slack      (Topo.tla)
+DETECT = 6      # Cycle + Slack      (Topo.tla, default configuration)
 EXPIRE = 16     # Timeout + CheckPeriod + Slack
+
+DEFAULT_CFG = dict(to=10, flow=True, drop=True, eat=False, nofl=False, hold=False)
+TIMEOUTS = [1, 2, 2, 3, 3, 4, 4, 4, 5, 7, 9, 10, 11, 20, 30]     # legal --link_timeout values tried
+SENDS_PER_SEC = 15
+
+
+def timing(cfg):
+  """the derived times of Topo.tla for a configuration"""
+  cyc = (cfg["to"] + 1) // 2
+  modal = cfg["nofl"] or cfg["hold"]
+  return dict(detect=cyc + 1, expire=cfg["to"] + 5 + 1, holdcap=cyc + 2,
+              settle=(cyc + 2 if modal else cyc + 1))
+
+
+def fits(cfg, n, np):
+  """Topo.tla CfgFits: one probe per port and cycle within the sender's rate limit"""
+  return 2 * n * np <= SENDS_PER_SEC * cfg["to"]
+
+
+def random_cfg(rnd, n, np, modes=None):
+  """a legal configuration for a net of n switches with np ports each"""
+  tos = [t for t in TIMEOUTS if fits(dict(to=t), n, np)]
+  c = dict(DEFAULT_CFG)
+  c["to"] = rnd.choice(tos)
+  nofl, hold = modes if modes is not None else rnd.choice([(False, False), (False, False), (True, True),
+                                                            (True, True), (False, True), (True, False)])
+  c["nofl"], c["hold"] = nofl, hold
+  if rnd.random() < 0.4:
+    c["flow"] = rnd.random() < 0.5
+    c["drop"] = rnd.random() < 0.5
+    c["eat"] = rnd.random() < 0.5
+  return c
 
 
 def flip(l):
@@ -32,8 +64,10 @@ def full_universe(n, cables=2):
   return np, cab
 
 
-def static_scenario(n, bits, idx, cables=2, variant=0, seed=0, floods="all"):
+def static_scenario(n, bits, idx, cables=2, variant=0, seed=0, floods="all", cfg=None):
   """bits: one int per directed wire of the full universe (1 = up)."""
+  if cfg is not None:
+    return config_static(n, bits, idx, cables, variant, seed, floods, cfg)
   np, cab = full_universe(n, cables)
   wires = [w for c in cab for w in c]
   phys = [w for w, b in zip(wires, bits) if b]
@@ -55,6 +89,34 @@ def static_scenario(n, bits, idx, cables=2, variant=0, seed=0, floods="all"):
   steps += [dict(a="Flood", s=s, p=np) for s in src]
   return dict(n=n, np=np, wires=wires, phys=phys, steps=steps, seed=seed * 31 + idx,
               kind="static%d" % n)
+
+
+def config_static(n, bits, idx, cables, variant, seed, floods, cfg):
+  """a wiring brought up under a non-default configuration; the times are those of the configuration"""
+  np, cab = full_universe(n, cables)
+  wires = [w for c in cab for w in c]
+  phys = [w for w, b in zip(wires, bits) if b]
+  rnd = random.Random(seed * 1000003 + idx + 17)
+  order = list(range(1, n + 1))
+  rnd.shuffle(order)
+  t = timing(cfg)
+  steps = []
+  if variant == 0:            # all at once; wait until every clause is in force again
+    steps += [dict(a="SwitchUp", s=s) for s in order]
+    steps.append(dict(a="Advance", d=t["settle"]))
+  elif variant == 1:          # the network grows switch by switch
+    for s in order:
+      steps.append(dict(a="SwitchUp", s=s))
+      steps.append(dict(a="Advance", d=t["detect"]))
+    steps.append(dict(a="Advance", d=1))
+  else:                       # all at once, then watched over several expiry checks
+    steps += [dict(a="SwitchUp", s=s) for s in order]
+    steps += [dict(a="Advance", d=1), dict(a="Advance", d=t["detect"]), dict(a="Advance", d=t["expire"]),
+              dict(a="Advance", d=5), dict(a="Advance", d=rnd.choice([1, 2, 3, 4, 5, 6]))]
+  src = range(1, n + 1) if floods == "all" else [1 + idx % n]
+  steps += [dict(a="Flood", s=s, p=np) for s in src]
+  return dict(n=n, np=np, wires=wires, phys=phys, steps=steps, seed=seed * 31 + idx,
+              kind="cfgstatic%d" % n, cfg=dict(cfg))
 
 
 def all_static(n, cables=2, seed=0, limit=None, variants=(0, 1, 2), canonical=False, floods="all"):
@@ -112,10 +174,15 @@ def random_net(rnd, n, np, density=0.5, selfloops=False):
   return cab
 
 
-def random_history(seed, n=None, np=None, steps=30, selfloops=False, maxn=5):
+def random_history(seed, n=None, np=None, steps=30, selfloops=False, maxn=5, cfg=None):
+  """cfg: None = default configuration, "random" = a seeded legal one, or an option record"""
   rnd = random.Random(seed)
   n = n or rnd.randint(2, maxn)
   np = np or rnd.randint(3, 5)
+  if cfg == "random":
+    cfg = random_cfg(random.Random(seed * 48271 + 11), n, np)
+  tm = timing(cfg or DEFAULT_CFG)
+  DETECT, EXPIRE, SETTLE = tm["detect"], tm["expire"], tm["settle"]
   cab = random_net(rnd, n, np, density=rnd.choice([0.4, 0.7, 1.0]), selfloops=selfloops)
   wires = [w for c in cab for w in c]
   # some wires exist in one direction only (one-way links), some start down
@@ -137,7 +204,8 @@ def random_history(seed, n=None, np=None, steps=30, selfloops=False, maxn=5):
   while len(out) < steps:
     k = rnd.random()
     if k < 0.40:
-      d = rnd.choice([1, 1, 2, 3, 4, 5, 6, 6, 7, 10, 11, 15, 16, 16, 17, 25])
+      d = rnd.choice([1, 1, 2, 3, max(1, DETECT - 2), max(1, DETECT - 1), DETECT, DETECT, DETECT + 1,
+                      EXPIRE - 6, EXPIRE - 5, EXPIRE - 1, EXPIRE, EXPIRE, EXPIRE + 1, EXPIRE + 9])
       out.append(dict(a="Advance", d=d))
       quiet += d
       still += d
@@ -168,11 +236,11 @@ def random_history(seed, n=None, np=None, steps=30, selfloops=False, maxn=5):
           up.add(s)
       quiet = still = 0
     elif k < 0.90:
-      if len(up) == n and still >= EXPIRE and quiet >= DETECT:
+      if len(up) == n and still >= EXPIRE and quiet >= SETTLE:
         s = rnd.randint(1, n)
         out.append(dict(a="Flood", s=s, p=np))
       else:
-        d = rnd.choice([6, 16])
+        d = rnd.choice([DETECT, EXPIRE])
         out.append(dict(a="Advance", d=d))
         quiet += d
         still += d
@@ -190,7 +258,11 @@ def random_history(seed, n=None, np=None, steps=30, selfloops=False, maxn=5):
       still += EXPIRE
       for s in range(1, n + 1):
         out.append(dict(a="Flood", s=s, p=np))
-  return dict(n=n, np=np, wires=wires, phys=phys, steps=out, seed=seed, kind="history")
+  sc = dict(n=n, np=np, wires=wires, phys=phys, steps=out, seed=seed, kind="history")
+  if cfg is not None:
+    sc["cfg"] = dict(cfg)
+    sc["kind"] = "cfghistory"
+  return sc
 
 
 def from_tlc(beh, net, seed):
@@ -207,4 +279,4 @@ def from_tlc(beh, net, seed):
     elif a == "Flood":
       steps.append(dict(a=a, s=g["s"], p=g["p"]))
   return dict(n=beh["net"]["n"], np=beh["net"]["np"], wires=sorted(beh["net"]["wires"]),
-              phys=sorted(beh["phys0"]), steps=steps, seed=seed, kind="tlc")
+              phys=sorted(beh["phys0"]), steps=steps, seed=seed, kind="tlc", cfg=dict(beh["cfg"]))
